@@ -727,7 +727,8 @@ func (m *serverHelloMsg) unmarshal(data []byte) bool {
 				return false
 			}
 			m.ocspStapling = true
-			if !readUint24LengthPrefixed(&extData, &m.ocspResponse) {
+			// OCSPStatusResponse<1..2^24-1>: 空响应不合法（marshal 也不会产生）
+			if !readUint24LengthPrefixed(&extData, &m.ocspResponse) || len(m.ocspResponse) == 0 {
 				return false
 			}
 		case extensionALPN:
